@@ -23,7 +23,7 @@ type c16SDK struct {
 	regCalls  int
 }
 
-func newC16SDK() *c16SDK { return &c16SDK{adds: map[string]int{}, created: map[string]int{}} }
+func c16NewSDK() *c16SDK { return &c16SDK{adds: map[string]int{}, created: map[string]int{}} }
 
 func (s *c16SDK) Meter(name string, _ ...metric.MeterOption) metric.Meter {
 	s.mu.Lock()
@@ -150,7 +150,7 @@ func c16Make(m metric.Meter, k int, name string) func() {
 // ---- C16.seq
 func HarnessC16Seq() {
 	mp := &meterProvider{}
-	sdk := newC16SDK()
+	sdk := c16NewSDK()
 	m := mp.Meter("m")
 	k := vndChoice(6)
 	rec1 := c16Make(m, k, "i")
@@ -196,7 +196,7 @@ func HarnessC16Seq() {
 func HarnessC16Conc() {
 	vndRaceOn(true)
 	mp := &meterProvider{}
-	sdk := newC16SDK()
+	sdk := c16NewSDK()
 	m := mp.Meter("m")
 	cb := func(context.Context, metric.Observer) error { return nil }
 	scenario := vndChoice(vndParam("SCN", 4))
@@ -243,7 +243,7 @@ func HarnessC16Conc() {
 // demonstrator / regression: SetMeterProvider || Unregister must not deadlock
 func HarnessC16Unregister() {
 	mp := &meterProvider{}
-	sdk := newC16SDK()
+	sdk := c16NewSDK()
 	m := mp.Meter("m")
 	reg, _ := m.RegisterCallback(func(context.Context, metric.Observer) error { return nil })
 	var wg sync.WaitGroup
@@ -417,7 +417,7 @@ func c16ObsName(o metric.Observable) string {
 // with the SDK's own instrument
 func HarnessC16Kinds() {
 	mp := &meterProvider{}
-	sdk := &c16ObsSDK{c16SDK: newC16SDK()}
+	sdk := &c16ObsSDK{c16SDK: c16NewSDK()}
 	m := mp.Meter("m")
 	ctx := context.Background()
 	if vndChoice(2) == 0 {
